@@ -51,7 +51,8 @@ def gen_cases(tier, seed):
             terms.append({'itmd': name, 'iseed': r.randrange(1 << 30),
                           'pref': r.choice(['1', '-1', '2', '1/2', '-1/3']),
                           # several terms: all indices linked (same targets)
-                          'nlink': r.random() if nterms == 1 else 1.0})
+                          'nlink': r.random() if nterms == 1 else 1.0,
+                          'free_ok': nterms == 1})
         req = r.choice(['same', 'same', 'all', 'type', 'with_t2_1', 'order'])
         cases.append({'id': f'C11-{tier[0]}{seed}-{k:04d}', 'kind': 'gen',
                       'terms': terms, 'request': req,
@@ -145,7 +146,26 @@ def build_term(tdesc):
     ten = it.tensor(indices=idx, return_sympy=True)
     k = int(round(tdesc['nlink'] * len(idx)))
     link = r.sample(idx, k)
-    rem = NonSymmetricTensor('x', tuple(get_symbols(link))) if link else S.One
+    occ_l = [s for s in link if s[0] in 'ijklmno']
+    virt_l = [s for s in link if s[0] in 'abcdefgh']
+    if (len(occ_l) >= 2 or len(virt_l) >= 2) and r.random() < 0.6:
+        # a remainder that is antisymmetric in the linked indices: several terms
+        # of a long intermediate are then mapped onto each other
+        from adcgen.sympy_objects import AntiSymmetricTensor
+        extra_o = [s for s in OCC if s not in idx]
+        extra_v = [s for s in VIRT if s not in idx]
+        up = list(occ_l)
+        lo = list(virt_l)
+        # a few free (target) indices on the remainder
+        if tdesc.get('free_ok', True) and r.random() < 0.5:
+            lo = lo + r.sample(extra_o, 1)
+        if tdesc.get('free_ok', True) and r.random() < 0.5:
+            lo = lo + r.sample(extra_v, 1)
+        rem = AntiSymmetricTensor('Y', tuple(get_symbols(up)),
+                                  tuple(get_symbols(lo)))
+    else:
+        rem = NonSymmetricTensor('x', tuple(get_symbols(link))) if link \
+            else S.One
     return ten * rem * sympify(tdesc['pref'])
 
 
